@@ -120,7 +120,15 @@ Event(n) ==
                          panics |-> {i \in I \cup F \cup must : BodyOf(i) = "panic"},
                          maypanic |-> {i \in may : BodyOf(i) = "panic"}]
 
+\* the connection ends and the client connects again - from a foreground DISCONNECTED handler that the harness
+\* keeps registered, the usual reconnect idiom.  The handler sets belong to the client, not to a connection:
+\* nothing changes, and later events still invoke what is registered
+Reconnect ==
+  /\ lastOp' = [op |-> "reconnect"]
+  /\ UNCHANGED <<regs, nextId, gone>>
+
 Next ==
+  \/ Reconnect
   \/ \E s \in {"fg", "bg"}, n \in Names, b \in Bodies, a \in 0..MaxRegs : Register(s, n, b, a)
   \/ \E n \in Names, b \in IntBodies, a \in 0..MaxRegs : Register("int", n, b, a)
   \/ \E i \in 1..MaxRegs : Remove(i)
